@@ -37,13 +37,20 @@ structure InvW (s : State) : Prop where
   onErrChk : ∀ w r, s.aw = .onErr w r true → s.runResOpen = true
   nopanic : s.panicked = false
 
-/-- the invariant between two steps: `InvW` plus "the await loop is only entered with `toWait > 0`" -/
-abbrev InvA (s : State) : Prop := InvW s ∧ (s.aw = .loop → 0 < s.toWait)
+/-- `checkAllInstancesAreFinished` has nothing left to do -/
+def ChkDone (s : State) : Prop := s.startTaken = true → s.runResOpen = true → s.awaited < s.spawned
+
+/-- the await goroutine is at a point where no call of `checkAllInstancesAreFinished` is pending -/
+def AwNoChk (s : State) : Prop := s.aw = .loop ∨ ∃ w r, s.aw = .onErr w r false
+
+/-- the invariant between two steps: `InvW`, "the await loop is only entered with `toWait > 0`", and no pending check -/
+abbrev InvA (s : State) : Prop := InvW s ∧ (s.aw = .loop → 0 < s.toWait) ∧ (AwNoChk s → ChkDone s)
 
 theorem invA_init : InvA init := by
-  refine ⟨?_, ?_⟩
+  refine ⟨?_, ?_, ?_⟩
   · constructor <;> simp [init, AwBusy, cnt]
   · simp [init]
+  · simp [init, ChkDone]
 
 
 theorem getElem?_facts {α} (l : List α) (i : Nat) (x : α) (h : l[i]? = some x) :
@@ -57,7 +64,7 @@ theorem getElem?_facts {α} (l : List α) (i : Nat) (x : α) (h : l[i]? = some x
   · intro e; subst e; simp at hi
 
 macro "inv_destruct" h:ident : tactic => `(tactic|
-  obtain ⟨⟨h1,h2,h3,h4,h5,h6,h7,h8,h9,h10,h12,h13,h14,h15,h16,h17,h18,h19,h20,h21⟩, h11⟩ := $h)
+  obtain ⟨⟨h1,h2,h3,h4,h5,h6,h7,h8,h9,h10,h12,h13,h14,h15,h16,h17,h18,h19,h20,h21⟩, h11, h22⟩ := $h)
 
 
 theorem nil_iff_length {α} (l : List α) : l = [] ↔ l.length = 0 := by cases l <;> simp
@@ -66,30 +73,42 @@ theorem nil_iff_length {α} (l : List α) : l = [] ↔ l.length = 0 := by cases 
 macro "w_tac" : tactic => `(tactic|
   (constructor <;>
    simp only [cancelAll, mainReturn, finish, checkAll, afterErr, handleRes, addErr, sendRes, nextWait, AwBusy, cnt,
+     ChkDone, AwNoChk,
      Ret.isCtxError, retAllowed, List.length_append, List.length_cons, List.length_nil, List.length_set] at * <;> grind))
 
+macro "g_tac" : tactic => `(tactic|
+  (simp only [cancelAll, mainReturn, finish, checkAll, afterErr, handleRes, addErr, sendRes, nextWait, AwBusy, cnt,
+        ChkDone, AwNoChk,
+        Ret.isCtxError, retAllowed, List.length_append, List.length_cons, List.length_nil, List.length_set] at *
+   grind))
+
 macro "inv_tac" : tactic => `(tactic|
-  (refine ⟨?_, ?_⟩
+  (refine ⟨?_, ?_, ?_⟩
    · w_tac
+   · g_tac
    · (simp only [cancelAll, mainReturn, finish, checkAll, afterErr, handleRes, addErr, sendRes, nextWait, AwBusy, cnt,
+     ChkDone, AwNoChk,
         Ret.isCtxError, retAllowed, List.length_append, List.length_cons, List.length_nil, List.length_set] at *
       grind)))
 
 macro "w_destruct" h:ident : tactic => `(tactic|
   obtain ⟨h1,h2,h3,h4,h5,h6,h7,h8,h9,h10,h12,h13,h14,h15,h16,h17,h18,h19,h20,h21⟩ := $h)
 
-theorem w_finish (s : State) (h : InvW s) : InvA (finish s) := by
+theorem w_finish (s : State) (h : InvW s) (hc : AwNoChk s → ChkDone s) : InvA (finish s) := by
   w_destruct h
   unfold finish
   split
-  · refine ⟨?_, ?_⟩
+  · refine ⟨?_, ?_, ?_⟩
     · w_tac
     · simp
-  · refine ⟨?_, ?_⟩
+    · simp [AwNoChk]
+  · refine ⟨?_, ?_, ?_⟩
     · w_tac
     · grind
+    · exact hc
 
-theorem w_checkAll (s : State) (h : InvW s) (hl : s.aw = .loop) (ho : s.runResOpen = true) : InvW (checkAll s) := by
+theorem w_checkAll (s : State) (h : InvW s) (hl : s.aw = .loop) (ho : s.runResOpen = true) :
+    InvW (checkAll s) ∧ ChkDone (checkAll s) := by
   w_destruct h
   have hb := nil_iff_length s.buf
   have hv := nil_iff_length s.live
@@ -99,33 +118,33 @@ theorem w_checkAll (s : State) (h : InvW s) (hl : s.aw = .loop) (ho : s.runResOp
     · simp_all
     · split
       · grind
-      · w_tac
-  · w_tac
-
-theorem checkAll_aw (s : State) : (checkAll s).aw = s.aw := by
-  unfold checkAll
-  repeat' split
-  all_goals rfl
+      · exact ⟨by w_tac, by simp [ChkDone]⟩
+  · exact ⟨by w_tac, by g_tac⟩
 
 theorem w_afterErr (s : State) (chk : Bool) (h : InvW { s with aw := .loop })
-    (ho : chk = true → s.runResOpen = true) : InvA (afterErr s chk) := by
+    (ho : chk = true → s.runResOpen = true) (hc : chk = false → ChkDone s) : InvA (afterErr s chk) := by
   unfold afterErr
-  apply w_finish
   split
-  · rename_i hc
-    exact w_checkAll _ h rfl (ho hc)
-  · exact h
+  · rename_i hk
+    have := w_checkAll _ h rfl (ho hk)
+    exact w_finish _ this.1 (fun _ => this.2)
+  · rename_i hk
+    exact w_finish _ h (fun _ => hc (by simpa using hk))
 
 theorem w_handleRes (s : State) (w : Wrap) (r : Ret) (done chk : Bool) (h : InvW s) (hl : s.aw = .loop)
-    (ho : chk = true → s.runResOpen = true) : InvA (handleRes s w r done chk) := by
+    (ho : chk = true → s.runResOpen = true) (hc : chk = false → ChkDone s) : InvA (handleRes s w r done chk) := by
   unfold handleRes
   split
-  · apply w_afterErr _ _ _ ho
+  · apply w_afterErr _ _ _ ho hc
     have e : { s with aw := AwPc.loop } = s := by cases s; simp_all
     rw [e]; exact h
-  · refine ⟨?_, ?_⟩
+  · refine ⟨?_, ?_, ?_⟩
     · w_destruct h; w_tac
     · simp
+    · intro hn
+      cases chk
+      · exact hc rfl
+      · simp [AwNoChk] at hn
 
 section
 variable (cfg : Cfg) (s : State)
@@ -207,6 +226,7 @@ theorem a_awaitProv (h : InvA s) : InvA (step cfg s .awaitProv) := by
     · inv_destruct h; w_tac
     · assumption
     · simp
+    · intro _; inv_destruct h; g_tac
   · exact h
 
 theorem a_awaitAgg (h : InvA s) : InvA (step cfg s .awaitAgg) := by
@@ -217,6 +237,7 @@ theorem a_awaitAgg (h : InvA s) : InvA (step cfg s .awaitAgg) := by
     · inv_destruct h; w_tac
     · assumption
     · simp
+    · intro _; inv_destruct h; g_tac
   · exact h
 
 theorem a_awaitStart (h : InvA s) : InvA (step cfg s .awaitStart) := by
@@ -227,6 +248,7 @@ theorem a_awaitStart (h : InvA s) : InvA (step cfg s .awaitStart) := by
     · inv_destruct h; w_tac
     · assumption
     · inv_destruct h; simp only [cnt] at *; grind
+    · simp
   · exact h
 
 theorem a_awaitRun (h : InvA s) : InvA (step cfg s .awaitRun) := by
@@ -237,10 +259,12 @@ theorem a_awaitRun (h : InvA s) : InvA (step cfg s .awaitRun) := by
     · apply w_afterErr
       · inv_destruct h; split <;> w_tac
       · intro _; split <;> assumption
+      · simp
     · apply w_handleRes
       · inv_destruct h; w_tac
       · assumption
       · intro _; assumption
+      · simp
   · exact h
 
 theorem a_errDeliver (h : InvA s) : InvA (step cfg s .errDeliver) := by
@@ -250,6 +274,7 @@ theorem a_errDeliver (h : InvA s) : InvA (step cfg s .errDeliver) := by
     apply w_afterErr
     · inv_destruct h; w_tac
     · intro hc; subst hc; inv_destruct h; simp only [mainReturn, cancelAll]; grind
+    · intro hc; subst hc; inv_destruct h; g_tac
   · exact h
 
 theorem a_errSuppress (h : InvA s) : InvA (step cfg s .errSuppress) := by
@@ -260,6 +285,7 @@ theorem a_errSuppress (h : InvA s) : InvA (step cfg s .errSuppress) := by
       apply w_afterErr
       · inv_destruct h; w_tac
       · intro hc; subst hc; inv_destruct h; grind
+      · intro hc; subst hc; inv_destruct h; g_tac
     repeat' split
     all_goals first | exact h | exact key
   · exact h
